@@ -23,7 +23,8 @@ RULE = ("Case = one target entity linked through all roles its kind can receive 
         "equal names) x 3-6 mutations (attribute, data region write, append, dimension append, metadata, calibration), each "
         "written through one randomly chosen path and read through all paths (fresh and kept handles), then reopen; plus, for "
         "array targets of rank 1-3, every dimension-link index vector with exactly one -1 (ticks/unit/label follow the target; "
-        "ticks replace link and vice versa); plus 12-20 membership faults on the link lists of the target's block.  Distinct by "
+        "ticks replace link and vice versa); plus 12-20 membership faults on the link lists of the target's block; plus role links (positions, extents, "
+        "feature data, metadata, section link) re-pointed or cleared through one of two long-lived handles of the holder and read through the other.  Distinct by "
         "(target kind, roles linked, mutation kind, write-path role -> read-path role, handle age, foreign-name relation / "
         "dimension-link index pattern); trivial = none.")
 ASSUMPTIONS = ["a dimension link exposes the target's stored values (linked targets are not calibrated here, A13)",
